@@ -4,4 +4,6 @@ go 1.25.0
 
 require github.com/bbockelm/cedar v0.0.0
 
+require github.com/PelicanPlatform/classad v0.4.0 // indirect
+
 replace github.com/bbockelm/cedar => /repo
